@@ -1,6 +1,8 @@
 import PMV.Spec.PyCore
 import PMV.Proofs.Transforms
 import PMV.Model.Minify
+import PMV.Proofs.PyCoreBind
+import PMV.Model.Scope
 /-
   C01 helper lemmas: a suite transformer whose pieces are semantically neutral (`Sound`) preserves the
   PyCore behaviour of every statement, at every nesting depth, through loops and calls, for every fuel.
@@ -9,9 +11,6 @@ namespace PMV.PyCore
 open PMV PMV.Transforms
 
 variable {o : Bool}
-
-/-- what the transformer does to a function body stored in the table -/
-def bodyT (t : SuiteT) (b : List Stmt) : List Stmt := t.funcBodyF (t.suiteF false (travBody t b))
 
 /-- the function table of the transformed module -/
 def mapT (t : SuiteT) : FTab → FTab
@@ -79,12 +78,16 @@ end PMV.PyCore
 namespace PMV.PyCore
 open PMV PMV.Transforms
 
+/-- the transform leaves the set of local names of every function of the table alone (and keeps its body inside the core) -/
+def Stable (t : SuiteT) (ft : FTab) : Prop :=
+  ∀ f ps b, ft.lookup f = some (ps, b) → (bindTop (bodyT t b)).map canonNames = (bindTop b).map canonNames
+
 /-- the claim at one fuel level -/
 def Good (o : Bool) (t : SuiteT) (ft : FTab) (n : Nat) : Prop :=
   (∀ s st, exec1 ⟨mapT t ft, o⟩ n s (travStmt t st) = exec1 ⟨ft, o⟩ n s st) ∧
   (∀ s l, execL ⟨mapT t ft, o⟩ n s (travBody t l) = execL ⟨ft, o⟩ n s l)
 
-theorem callFn_ok (t : SuiteT) (h : Sound o t) (ft : FTab) (n : Nat) (ih : ∀ m, m < n → Good o t ft m)
+theorem callFn_ok (t : SuiteT) (h : Sound o t) (ft : FTab) (hft : Stable t ft) (n : Nat) (ih : ∀ m, m < n → Good o t ft m)
     (s : St) (f : String) (args : List Expr) (tgt : Option String) :
     callFn ⟨mapT t ft, o⟩ n s f args tgt = callFn ⟨ft, o⟩ n s f args tgt := by
   rw [callFn, callFn]
@@ -95,11 +98,24 @@ theorem callFn_ok (t : SuiteT) (h : Sound o t) (ft : FTab) (n : Nat) (ih : ∀ m
     | error x => rfl
     | ok vs =>
       simp only [lookup_mapT]
-      cases ft.lookup f with
+      cases hl : ft.lookup f with
       | none => rfl
       | some pb =>
         obtain ⟨ps, b⟩ := pb
         simp only [Option.map_some]
+        have hst := hft f ps b hl
+        cases h1 : bindTop (bodyT t b) with
+        | none =>
+          cases h2 : bindTop b with
+          | none => rfl
+          | some bound => rw [h1, h2] at hst; simp at hst
+        | some bound' =>
+        cases h2 : bindTop b with
+        | none => rw [h1, h2] at hst; simp at hst
+        | some bound =>
+        rw [h1, h2] at hst
+        simp only [Option.map_some, Option.some.injEq] at hst
+        simp only [hst]
         cases n with
         | zero => rfl
         | succ k =>
@@ -110,7 +126,7 @@ theorem callFn_ok (t : SuiteT) (h : Sound o t) (ft : FTab) (n : Nat) (ih : ∀ m
             rw [h.body, h.suite, (ih k (Nat.lt_succ_self k)).2]
           simp only [hb]
 
-theorem flat_same (t : SuiteT) (h : Sound o t) (ft : FTab) (n : Nat) (ih : ∀ m, m < n → Good o t ft m)
+theorem flat_same (t : SuiteT) (h : Sound o t) (ft : FTab) (hft : Stable t ft) (n : Nat) (ih : ∀ m, m < n → Good o t ft m)
     (s : St) (st : Stmt) (hst : isBlockStmt st = false) :
     exec1 ⟨mapT t ft, o⟩ n s st = exec1 ⟨ft, o⟩ n s st := by
   rw [exec1_flat _ _ _ _ hst, exec1_flat _ _ _ _ hst]
@@ -121,7 +137,7 @@ theorem flat_same (t : SuiteT) (h : Sound o t) (ft : FTab) (n : Nat) (ih : ∀ m
   · simp only [ha, Bool.false_eq_true, if_false]
     cases callOf st with
     | none => rfl
-    | some r => obtain ⟨f, args, tgt⟩ := r; exact callFn_ok t h ft n ih s f args tgt
+    | some r => obtain ⟨f, args, tgt⟩ := r; exact callFn_ok t h ft hft n ih s f args tgt
 
 theorem orelse_ok (t : SuiteT) (h : Sound o t) (ft : FTab) (n : Nat) (s : St) (os : List Stmt)
     (ho : execL ⟨mapT t ft, o⟩ n s (travBody t os) = execL ⟨ft, o⟩ n s os) :
@@ -149,20 +165,20 @@ theorem execFor_congr (ft ft' : FTab) (body body' orelse orelse' : List Stmt) (N
     simp only [hrec]
 
 mutual
-theorem exec1_ok (t : SuiteT) (h : Sound o t) (ft : FTab) (n : Nat) (ih : ∀ m, m < n → Good o t ft m) :
+theorem exec1_ok (t : SuiteT) (h : Sound o t) (ft : FTab) (hft : Stable t ft) (n : Nat) (ih : ∀ m, m < n → Good o t ft m) :
     (st : Stmt) → (s : St) → exec1 ⟨mapT t ft, o⟩ n s (travStmt t st) = exec1 ⟨ft, o⟩ n s st
   | .if_ c body orelse, s => by
     simp only [travStmt]
-    rw [exec1.eq_1, exec1.eq_1, h.suite, execL_ok t h ft n ih body s,
-      orelse_ok t h ft n s orelse (execL_ok t h ft n ih orelse s)]
+    rw [exec1.eq_1, exec1.eq_1, h.suite, execL_ok t h ft hft n ih body s,
+      orelse_ok t h ft n s orelse (execL_ok t h ft hft n ih orelse s)]
   | .while_ c body orelse, s => by
     simp only [travStmt]
     cases n with
     | zero =>
-      rw [exec1.eq_2, exec1.eq_2, orelse_ok t h ft 0 s orelse (execL_ok t h ft 0 ih orelse s)]
+      rw [exec1.eq_2, exec1.eq_2, orelse_ok t h ft 0 s orelse (execL_ok t h ft hft 0 ih orelse s)]
     | succ k =>
-      rw [exec1.eq_3, exec1.eq_3, h.suite, execL_ok t h ft (k + 1) ih body s,
-        orelse_ok t h ft (k + 1) s orelse (execL_ok t h ft (k + 1) ih orelse s)]
+      rw [exec1.eq_3, exec1.eq_3, h.suite, execL_ok t h ft hft (k + 1) ih body s,
+        orelse_ok t h ft (k + 1) s orelse (execL_ok t h ft hft (k + 1) ih orelse s)]
       have hw : ∀ s', exec1 ⟨mapT t ft, o⟩ k s'
           (.while_ c (t.suiteF false (travBody t body)) (if orelse.isEmpty then [] else t.suiteF false (travBody t orelse)))
           = exec1 ⟨ft, o⟩ k s' (.while_ c body orelse) := by
@@ -190,13 +206,13 @@ theorem exec1_ok (t : SuiteT) (h : Sound o t) (ft : FTab) (n : Nat) (ih : ∀ m,
       rw [h.suite]
       rcases Nat.lt_or_eq_of_le hf with hlt | heq
       · exact (ih f hlt).2 s body
-      · subst heq; exact execL_ok t h ft f ih body s
+      · subst heq; exact execL_ok t h ft hft f ih body s
     have ho : ∀ f, f ≤ n → ∀ s, execL ⟨mapT t ft, o⟩ f s (if orelse.isEmpty then [] else t.suiteF false (travBody t orelse)) = execL ⟨ft, o⟩ f s orelse := by
       intro f hf s
       apply orelse_ok t h ft f s orelse
       rcases Nat.lt_or_eq_of_le hf with hlt | heq
       · exact (ih f hlt).2 s orelse
-      · subst heq; exact execL_ok t h ft f ih orelse s
+      · subst heq; exact execL_ok t h ft hft f ih orelse s
     have hfor : ∀ (s : St) (x : String) (k : Int),
         execFor ⟨mapT t ft, o⟩ n s x 0 k (t.suiteF false (travBody t body)) (if orelse.isEmpty then [] else t.suiteF false (travBody t orelse))
           = execFor ⟨ft, o⟩ n s x 0 k body orelse :=
@@ -212,55 +228,55 @@ theorem exec1_ok (t : SuiteT) (h : Sound o t) (ft : FTab) (n : Nat) (ih : ∀ m,
     simp [flatExec, isAssertStmt, callOf, simpleExec]
   | .try_ false body hs orelse fin, s => by
     simp only [travStmt]
-    rw [exec1.eq_5, exec1.eq_5, h.suite, execL_ok t h ft n ih body s]
+    rw [exec1.eq_5, exec1.eq_5, h.suite, execL_ok t h ft hft n ih body s]
     have he : (fun s1 => execL ⟨mapT t ft, o⟩ n s1 (if orelse.isEmpty then [] else t.suiteF false (travBody t orelse)))
         = (fun s1 => execL ⟨ft, o⟩ n s1 orelse) := by
-      funext s1; exact orelse_ok t h ft n s1 orelse (execL_ok t h ft n ih orelse s1)
+      funext s1; exact orelse_ok t h ft n s1 orelse (execL_ok t h ft hft n ih orelse s1)
     have hf : (fun s1 => execL ⟨mapT t ft, o⟩ n s1 (if fin.isEmpty then [] else t.suiteF false (travBody t fin)))
         = (fun s1 => execL ⟨ft, o⟩ n s1 fin) := by
-      funext s1; exact orelse_ok t h ft n s1 fin (execL_ok t h ft n ih fin s1)
+      funext s1; exact orelse_ok t h ft n s1 fin (execL_ok t h ft hft n ih fin s1)
     have hh : (fun x s1 => execH ⟨mapT t ft, o⟩ n s1 x (travHandlers t hs)) = (fun x s1 => execH ⟨ft, o⟩ n s1 x hs) := by
-      funext x s1; exact execH_ok t h ft n ih hs s1 x
+      funext x s1; exact execH_ok t h ft hft n ih hs s1 x
     rw [he, hf, hh]
   | .match_ .., s => by
     simp only [travStmt]
     rw [exec1_flat _ _ _ _ rfl, exec1_flat _ _ _ _ rfl]
     simp [flatExec, isAssertStmt, callOf, simpleExec]
-  | .return_ v, s => by simp only [travStmt]; rw [h.stmt]; exact flat_same t h ft n ih s _ rfl
-  | .delete v, s => by simp only [travStmt]; rw [h.stmt]; exact flat_same t h ft n ih s _ rfl
-  | .assign .., s => by simp only [travStmt]; rw [h.stmt]; exact flat_same t h ft n ih s _ rfl
-  | .typeAlias .., s => by simp only [travStmt]; rw [h.stmt]; exact flat_same t h ft n ih s _ rfl
-  | .augAssign .., s => by simp only [travStmt]; rw [h.stmt]; exact flat_same t h ft n ih s _ rfl
-  | .annAssign .., s => by simp only [travStmt]; rw [h.stmt]; exact flat_same t h ft n ih s _ rfl
-  | .raise_ .., s => by simp only [travStmt]; rw [h.stmt]; exact flat_same t h ft n ih s _ rfl
-  | .assert_ .., s => by simp only [travStmt]; rw [h.stmt]; exact flat_same t h ft n ih s _ rfl
-  | .import_ .., s => by simp only [travStmt]; rw [h.stmt]; exact flat_same t h ft n ih s _ rfl
-  | .importFrom .., s => by simp only [travStmt]; rw [h.stmt]; exact flat_same t h ft n ih s _ rfl
-  | .global _, s => by simp only [travStmt]; rw [h.stmt]; exact flat_same t h ft n ih s _ rfl
-  | .nonlocal _, s => by simp only [travStmt]; rw [h.stmt]; exact flat_same t h ft n ih s _ rfl
-  | .expr _, s => by simp only [travStmt]; rw [h.stmt]; exact flat_same t h ft n ih s _ rfl
-  | .pass, s => by simp only [travStmt]; rw [h.stmt]; exact flat_same t h ft n ih s _ rfl
-  | .break_, s => by simp only [travStmt]; rw [h.stmt]; exact flat_same t h ft n ih s _ rfl
-  | .continue_, s => by simp only [travStmt]; rw [h.stmt]; exact flat_same t h ft n ih s _ rfl
-theorem execH_ok (t : SuiteT) (h : Sound o t) (ft : FTab) (n : Nat) (ih : ∀ m, m < n → Good o t ft m) :
+  | .return_ v, s => by simp only [travStmt]; rw [h.stmt]; exact flat_same t h ft hft n ih s _ rfl
+  | .delete v, s => by simp only [travStmt]; rw [h.stmt]; exact flat_same t h ft hft n ih s _ rfl
+  | .assign .., s => by simp only [travStmt]; rw [h.stmt]; exact flat_same t h ft hft n ih s _ rfl
+  | .typeAlias .., s => by simp only [travStmt]; rw [h.stmt]; exact flat_same t h ft hft n ih s _ rfl
+  | .augAssign .., s => by simp only [travStmt]; rw [h.stmt]; exact flat_same t h ft hft n ih s _ rfl
+  | .annAssign .., s => by simp only [travStmt]; rw [h.stmt]; exact flat_same t h ft hft n ih s _ rfl
+  | .raise_ .., s => by simp only [travStmt]; rw [h.stmt]; exact flat_same t h ft hft n ih s _ rfl
+  | .assert_ .., s => by simp only [travStmt]; rw [h.stmt]; exact flat_same t h ft hft n ih s _ rfl
+  | .import_ .., s => by simp only [travStmt]; rw [h.stmt]; exact flat_same t h ft hft n ih s _ rfl
+  | .importFrom .., s => by simp only [travStmt]; rw [h.stmt]; exact flat_same t h ft hft n ih s _ rfl
+  | .global _, s => by simp only [travStmt]; rw [h.stmt]; exact flat_same t h ft hft n ih s _ rfl
+  | .nonlocal _, s => by simp only [travStmt]; rw [h.stmt]; exact flat_same t h ft hft n ih s _ rfl
+  | .expr _, s => by simp only [travStmt]; rw [h.stmt]; exact flat_same t h ft hft n ih s _ rfl
+  | .pass, s => by simp only [travStmt]; rw [h.stmt]; exact flat_same t h ft hft n ih s _ rfl
+  | .break_, s => by simp only [travStmt]; rw [h.stmt]; exact flat_same t h ft hft n ih s _ rfl
+  | .continue_, s => by simp only [travStmt]; rw [h.stmt]; exact flat_same t h ft hft n ih s _ rfl
+theorem execH_ok (t : SuiteT) (h : Sound o t) (ft : FTab) (hft : Stable t ft) (n : Nat) (ih : ∀ m, m < n → Good o t ft m) :
     (hs : List Handler) → (s : St) → (x : String) → execH ⟨mapT t ft, o⟩ n s x (travHandlers t hs) = execH ⟨ft, o⟩ n s x hs
   | [], s, x => by simp only [travHandlers]; rw [execH.eq_1, execH.eq_1]
   | .mk ty nm hbody :: rest, s, x => by
     simp only [travHandlers]
-    rw [execH.eq_2, execH.eq_2, execL_ok t h ft n ih hbody s, execH_ok t h ft n ih rest s x]
-theorem execL_ok (t : SuiteT) (h : Sound o t) (ft : FTab) (n : Nat) (ih : ∀ m, m < n → Good o t ft m) :
+    rw [execH.eq_2, execH.eq_2, execL_ok t h ft hft n ih hbody s, execH_ok t h ft hft n ih rest s x]
+theorem execL_ok (t : SuiteT) (h : Sound o t) (ft : FTab) (hft : Stable t ft) (n : Nat) (ih : ∀ m, m < n → Good o t ft m) :
     (l : List Stmt) → (s : St) → execL ⟨mapT t ft, o⟩ n s (travBody t l) = execL ⟨ft, o⟩ n s l
   | [], s => by simp [travBody, execL_nil]
   | st :: rest, s => by
     simp only [travBody]
-    rw [execL_cons, execL_cons, exec1_ok t h ft n ih st s]
-    have hr : ∀ s', execL ⟨mapT t ft, o⟩ n s' (travBody t rest) = execL ⟨ft, o⟩ n s' rest := execL_ok t h ft n ih rest
+    rw [execL_cons, execL_cons, exec1_ok t h ft hft n ih st s]
+    have hr : ∀ s', execL ⟨mapT t ft, o⟩ n s' (travBody t rest) = execL ⟨ft, o⟩ n s' rest := execL_ok t h ft hft n ih rest
     simp only [hr]
 end
 
-theorem good_all (t : SuiteT) (h : Sound o t) (ft : FTab) (n : Nat) : Good o t ft n := by
+theorem good_all (t : SuiteT) (h : Sound o t) (ft : FTab) (hft : Stable t ft) (n : Nat) : Good o t ft n := by
   induction n using Nat.strongRecOn with
-  | _ n ih => exact ⟨fun s st => exec1_ok t h ft n ih st s, fun s l => execL_ok t h ft n ih l s⟩
+  | _ n ih => exact ⟨fun s st => exec1_ok t h ft hft n ih st s, fun s l => execL_ok t h ft hft n ih l s⟩
 
 end PMV.PyCore
 
@@ -293,18 +309,49 @@ theorem collect_trav (t : SuiteT) (ht : TableSound t) : ∀ l, collect (travBody
 
 /-- Whole-module preservation for a sound transformer: same printed lines, same ending, same globals,
     for every fuel (so also the same divergence behaviour up to any bound). -/
-theorem run_trav (t : SuiteT) (h : Sound false t) (ht : TableSound t) (n : Nat) (m : Module) :
+theorem run_trav (t : SuiteT) (h : Sound false t) (ht : TableSound t) (n : Nat) (m : Module)
+    (hst : Stable t (collect m.body)) :
     run n (travModule t m) = run n m := by
   unfold run travModule
   simp only
-  rw [ht.suiteDef, collect_trav t ht, h.suite, (good_all t h (collect m.body) n).2]
+  rw [ht.suiteDef, collect_trav t ht, h.suite, (good_all t h (collect m.body) hst n).2]
 
 /-- the same under `python -O` -/
-theorem runO_trav (t : SuiteT) (h : Sound true t) (ht : TableSound t) (n : Nat) (m : Module) :
+theorem runO_trav (t : SuiteT) (h : Sound true t) (ht : TableSound t) (n : Nat) (m : Module)
+    (hst : Stable t (collect m.body)) :
     runO n (travModule t m) = runO n m := by
   unfold runO travModule
   simp only
-  rw [ht.suiteDef, collect_trav t ht, h.suite, (good_all t h (collect m.body) n).2]
+  rw [ht.suiteDef, collect_trav t ht, h.suite, (good_all t h (collect m.body) hst n).2]
+
+theorem lookup_mem {α β : Type} [BEq α] [LawfulBEq α] (l : List (α × β)) (k : α) (v : β) (h : l.lookup k = some v) : (k, v) ∈ l := by
+  induction l with
+  | nil => simp at h
+  | cons p rest ih =>
+    obtain ⟨k', v'⟩ := p
+    simp only [List.lookup] at h
+    by_cases hk : (k == k') = true
+    · simp only [hk] at h
+      have : k = k' := by simpa using hk
+      subst this
+      simp only [Option.some.injEq] at h
+      subst h
+      simp
+    · have hk' : (k == k') = false := by simpa using hk
+      simp only [hk'] at h
+      exact List.mem_cons_of_mem _ (ih h)
+
+theorem stable_of_scopeStable (t : SuiteT) (m : Module) (h : scopeStable t m = true) : Stable t (collect m.body) := by
+  intro f ps b hl
+  have hm := lookup_mem _ f (ps, b) hl
+  unfold scopeStable at h
+  rw [List.all_eq_true] at h
+  have := h _ hm
+  simpa using this
+
+/-- a transform whose pieces keep the bound names keeps the local names of every function -/
+theorem stable_of_bindOK (t : SuiteT) (h : BindOK t) (ft : FTab) : Stable t ft :=
+  fun _ _ b _ => by rw [show bindTop (bodyT t b) = bindTop b from bindTop_bodyT t h b]
 
 /-! ### instances: dropping statements that do nothing -/
 
